@@ -77,6 +77,8 @@ EName(i) == CASE i = 1 -> "e1" [] i = 2 -> "e2" [] i = 3 -> "e3" [] i = 4 -> "e4
 FnOf(layout, i, nb) ==
   CASE layout = "none" -> ""
     [] layout = "one" -> "b1"
+    \* one function with a second entry on its last block (a multi-entry function)
+    [] layout = "one2" -> "b1"
     [] layout = "split" -> IF i = 1 THEN "b1" ELSE "b2"
     [] layout = "tail" -> IF i = 1 THEN "" ELSE "b2"
     \* every block a function of its own (callers and callees side by side)
@@ -95,6 +97,11 @@ CfiOf(cl, i, nb, units, isData) ==
             [] cl = "proc_all" ->
                  (IF i = 1 THEN << <<0, Start7>> >> \o (IF o1 < n THEN << <<o1, << <<"cfi_def_cfa_offset", 16>> >> >> >> ELSE <<>>) ELSE <<>>)
                  \o (IF i = nb THEN << <<n, << <<"cfi_endproc">> >> >> >> ELSE <<>>)
+            \* two procedures: A over all blocks but the last, B over the last block
+            [] cl = "proc_split" ->
+                 (IF i = 1 /\ nb > 1 THEN << <<0, Start7>> >> ELSE <<>>)
+                 \o (IF i = nb - 1 THEN << <<n, << <<"cfi_endproc">> >> >> >> ELSE <<>>)
+                 \o (IF i = nb THEN << <<0, Start7>>, <<n, << <<"cfi_endproc">> >> >> >> ELSE <<>>)
             [] cl = "proc_rs" ->
                  (IF i = 1 THEN << <<0, Start7>> >> \o (IF o1 < n THEN << <<o1, << <<"cfi_remember_state">>, <<"cfi_def_cfa_offset", 16>> >> >> >> ELSE <<>>) ELSE <<>>)
                  \o (IF i = 2 /\ nb >= 2 THEN << <<0, << <<"cfi_restore_state">> >> >> >> ELSE <<>>)
@@ -117,7 +124,7 @@ MkBlock(i, nb, tpl, tgtIdx, layout, endSym, annMode, annAt, cl0, noSym, al, ld) 
        syms |-> IF noSym THEN <<>> ELSE <<BName(i)>>,
        esyms |-> IF endSym THEN <<EName(i)>> ELSE <<>>,
        fn |-> f,
-       entry |-> (f # "" /\ f = BName(i)),
+       entry |-> (f # "" /\ (f = BName(i) \/ (layout = "one2" /\ i = nb))),
        \* one annotation at the chosen place, and a second one at the start of the last
        \* block (two entries in one byte interval: insertion order is not address order)
        ann |-> (IF annMode # "none" /\ annAt[1] = i
@@ -137,7 +144,7 @@ ShapeParams ==
      /\ p.tgt <= p.nb
      /\ ~IsData(p.tpl[p.tgt])
      \* functions, end symbols and CFI sit on non-empty blocks
-     /\ (p.layout # "none" => \A i \in 1..p.nb : p.tpl[i] # "z0" \/ (i > 1 /\ p.layout \in {"one", "tail"}))
+     /\ (p.layout # "none" => \A i \in 1..p.nb : p.tpl[i] # "z0" \/ (i > 1 /\ p.layout \in {"one", "tail"}) \/ (i > 1 /\ i < p.nb /\ p.layout = "one2"))
      /\ \A i \in p.es : p.tpl[i] # "z0"
      /\ (p.cl # "none" => \A i \in 1..p.nb : p.tpl[i] # "z0")
      /\ (\E i \in 1..p.nb : p.tpl[i] # "z0")
@@ -151,8 +158,10 @@ ShapeParams ==
      /\ (p.am = "none" => p.annAt = <<1, 0>>)
      /\ (p.am # "none" => p.annAt[1] <= p.nb)
      /\ (p.layout \in {"split", "tail"} => p.nb >= 2 /\ ~IsData(p.tpl[2]))
-     /\ (p.layout \in {"one", "split"} => ~IsData(p.tpl[1]))
+     /\ (p.layout \in {"one", "split", "one2"} => ~IsData(p.tpl[1]))
+     /\ (p.layout = "one2" => p.nb >= 2 /\ ~IsData(p.tpl[p.nb]))
      /\ (p.cl \in {"proc_all", "proc_rs"} => ~IsData(p.tpl[1]) /\ ~IsData(p.tpl[p.nb]))
+     /\ (p.cl = "proc_split" => p.nb >= 2 /\ \A i \in 1..p.nb : ~IsData(p.tpl[i]))
      /\ (p.cl \in {"proc_each", "proc_first"} => \E i \in 1..p.nb : ~IsData(p.tpl[i]))
      /\ (p.cl = "proc_rs" /\ p.nb >= 2 => ~IsData(p.tpl[2]))}
 
